@@ -166,6 +166,20 @@ def note_accept(kind: str) -> None:
     _NOTE[kind] = _NOTE.get(kind, 0) + 1
 
 
+def _fresh_strings(obj):
+    """A copy of the case in which every str is a distinct object equal to the original (as if read from a file or the
+    command line): the library is given option values and labels by value, never the interned source literal."""
+    if isinstance(obj, str):
+        return "".join(list(obj)) if len(obj) > 1 else obj
+    if isinstance(obj, list):
+        return [_fresh_strings(x) for x in obj]
+    if isinstance(obj, tuple):
+        return tuple(_fresh_strings(x) for x in obj)
+    if isinstance(obj, dict):
+        return {k: _fresh_strings(v) for k, v in obj.items()}
+    return obj
+
+
 class _Recorder:
     def __init__(self, mod, check: Check):
         self.mod = mod
@@ -194,7 +208,7 @@ class _Recorder:
             signal.setitimer(signal.ITIMER_REAL, CASE_TIME_LIMIT)
         try:
             try:
-                info = self.check.run(case) or {}
+                info = self.check.run(_fresh_strings(case)) or {}
             finally:
                 if armed:
                     signal.setitimer(signal.ITIMER_REAL, 0)
